@@ -17,6 +17,12 @@ import (
 const (
 	peersPath    = "spynode/peers"
 	peersVersion = 2
+
+	// minPeerSize is the smallest serialized peer (address size and score).
+	minPeerSize = 8
+
+	// maxPeerAddressSize is the largest address that will be read from storage.
+	maxPeerAddressSize = 1024
 )
 
 // Peer address database. Used to find Tx Peers.
@@ -77,7 +83,15 @@ func (repo *PeerRepository) Load(ctx context.Context) error {
 	}
 
 	// Reset
-	repo.list = make([]*Peer, 0, count)
+	// The count is only a hint for the capacity. Don't trust it beyond what the data could hold.
+	capacity := int(count)
+	if capacity < 0 {
+		capacity = 0
+	}
+	if capacity > buffer.Len()/minPeerSize {
+		capacity = buffer.Len() / minPeerSize
+	}
+	repo.list = make([]*Peer, 0, capacity)
 
 	// Parse peers
 	for {
@@ -236,6 +250,10 @@ func readPeer(input io.Reader, version int32) (Peer, error) {
 	var addressSize int32
 	if err := binary.Read(input, binary.LittleEndian, &addressSize); err != nil {
 		return result, err
+	}
+
+	if addressSize < 0 || addressSize > maxPeerAddressSize {
+		return result, errors.New("Invalid peer address size")
 	}
 
 	addressData := make([]byte, addressSize)
